@@ -32,6 +32,7 @@ func init() {
 	streams["cache"] = func(r *Run) { streamCache(r, "main") }
 	streams["cache_single"] = func(r *Run) { streamCache(r, "single") }
 	streams["cache_collide"] = func(r *Run) { streamCache(r, "collide") }
+	streams["cache_evict"] = func(r *Run) { streamCache(r, "evict") }
 }
 
 const hookStart = 100 // pseudo yield point: a client call is about to start
@@ -86,6 +87,8 @@ type sched struct {
 	rejectCnt map[uint64]int
 	sweepEv   []sweepEvict
 	sw51, sw52 int
+	addVictims int                  // victims chosen by the policy.Add in progress
+	addAdmit   bool                 // ... and whether it admitted
 	appKey     uint64               // hash of the item the applier is processing
 	applyT     map[uint64]time.Time // hash -> virtual time of the latest store.Set of a new item
 	inSweep   bool
@@ -167,6 +170,19 @@ func (s *sched) point(id int) {
 	if id == 34 {
 		s.applyT[s.appKey] = time.Now()
 	}
+	if id == 33 { // policy.Add returned
+		switch {
+		case s.addVictims > 0 && !s.addAdmit:
+			s.r.Count("add_reject_after_partial_eviction")
+		case s.addVictims > 1:
+			s.r.Count("add_admit_with_2plus_victims")
+		case s.addVictims == 1:
+			s.r.Count("add_admit_with_1_victim")
+		case !s.addAdmit:
+			s.r.Count("add_reject_no_victim")
+		}
+		s.addVictims, s.addAdmit = 0, false
+	}
 	s.events = append(s.events, event{g, fmt.Sprintf("at %s %d", g.name, id)})
 	if id == 44 { // the applier is about to return: never park a dying goroutine
 		g.at = 0
@@ -186,6 +202,16 @@ func (s *sched) observe(id int, a, b uint64) {
 	if id == 30 {
 		s.mu.Lock()
 		s.appKey = b
+		s.mu.Unlock()
+	}
+	if id == 63 {
+		s.mu.Lock()
+		s.addVictims++
+		s.mu.Unlock()
+	}
+	if id == 33 && a == 1 {
+		s.mu.Lock()
+		s.addAdmit = true
 		s.mu.Unlock()
 	}
 	s.record(g, fmt.Sprintf("obs %d %d %d", id, a, b))
@@ -270,6 +296,17 @@ func runCacheCase(r *Run, mode string, seed int64, sample bool) {
 		nClients = 1
 		cfg.maxCost = 100000
 		cfg.su = false
+	}
+	if mode == "evict" {
+		// small capacity, every Get reaches the frequency sketch, hot and cold keys: admissions
+		// that need several victims, rejections after a partial eviction
+		cfg.maxCost = int64(8 + rng.Intn(12))
+		cfg.ignoreInternal = true
+		cfg.costFn = false
+		cfg.su = false
+		cfg.bufferItems = 1
+		cfg.nKeys = 4 + rng.Intn(5)
+		cfg.bufCap = int64(3 + rng.Intn(6))
 	}
 	synctest.Test(r.T, func(t *testing.T) {
 		cacheCaseBody(r, rng, cfg, nClients, sample)
@@ -375,6 +412,9 @@ func cacheCaseBody(r *Run, rng *rand.Rand, cfg cacheCfg, nClients int, sample bo
 		rec := &callRec{client: ci, kind: kind}
 		g.rec = rec
 		k := uint64(1 + rng.Intn(cfg.nKeys))
+		if cfg.mode == "evict" && kind == "get" && rng.Intn(4) != 0 {
+			k = uint64(1 + rng.Intn(2)) // hot keys
+		}
 		h, cf := keyHash(cfg.mode, k)
 		rec.key = k
 		switch kind {
@@ -394,6 +434,16 @@ func cacheCaseBody(r *Run, rng *rand.Rand, cfg cacheCfg, nClients int, sample bo
 			}
 			if cfg.mode == "single" {
 				rec.cost = 1 + rng.Int63n(20)
+			}
+			if cfg.mode == "evict" {
+				if rng.Intn(3) == 0 {
+					rec.cost = cfg.maxCost/2 + rng.Int63n(cfg.maxCost/2+1)
+				} else {
+					rec.cost = 1 + rng.Int63n(cfg.maxCost/4+1)
+				}
+				if rng.Intn(4) != 0 {
+					rec.ttl = 0
+				}
 			}
 			emit("spawn %s set %d %d %d %d %d", g.name, h, cf, rec.val, rec.cost, int64(rec.ttl))
 		case "get", "getttl", "del":
@@ -574,8 +624,14 @@ func cacheCaseBody(r *Run, rng *rand.Rand, cfg cacheCfg, nClients int, sample bo
 	if cfg.mode == "single" {
 		kinds = []string{"set", "set", "set", "get", "get", "getttl", "del", "wait"}
 	}
+	if cfg.mode == "evict" {
+		kinds = []string{"set", "set", "set", "get", "get", "get", "get", "get", "wait", "rem", "del"}
+	}
 	appWeight := []int{1, 1, 2, 6}[rng.Intn(4)]
 	nCalls := 8 + rng.Intn(40)
+	if cfg.mode == "evict" {
+		nCalls = 40 + rng.Intn(60)
+	}
 	issued := 0
 	for steps := 0; steps < 4000; steps++ {
 		ps := parked()
@@ -747,8 +803,12 @@ func oracleQuiescent(r *Run, s *sched, cfg cacheCfg, cache *ristretto.Cache[uint
 		if int(m.Hits()+m.Misses()) != ngets {
 			r.Fail("C17", fmt.Sprintf("Hits+Misses=%d, Get calls=%d", m.Hits()+m.Misses(), ngets), in)
 		}
-		if int64(m.KeysAdded()-m.KeysEvicted()) != int64(len(sn.KeyCosts)) {
-			r.Fail("C17", fmt.Sprintf("KeysAdded-KeysEvicted=%d, resident=%d", int64(m.KeysAdded()-m.KeysEvicted()), len(sn.KeyCosts)), in)
+		resident := len(sn.Store) // the keys held in the map (= the accounted keys, C13, unless hashes collide)
+		if cfg.mode == "collide" {
+			resident = len(sn.KeyCosts)
+		}
+		if int64(m.KeysAdded()-m.KeysEvicted()) != int64(resident) {
+			r.Fail("C17", fmt.Sprintf("KeysAdded-KeysEvicted=%d, resident keys=%d", int64(m.KeysAdded()-m.KeysEvicted()), resident), in)
 		}
 		if int64(m.CostAdded()-m.CostEvicted()) != sn.MaxCost-cache.RemainingCost() {
 			r.Fail("C17", fmt.Sprintf("CostAdded-CostEvicted=%d, MaxCost-Remaining=%d", int64(m.CostAdded()-m.CostEvicted()), sn.MaxCost-cache.RemainingCost()), in)
